@@ -21,6 +21,11 @@ def St.fuelOK (s : St) : Nat := 6 * s.facts.length + 12 + tiWidth s.ti
 /-- the public wrappers with the corrected budget -/
 def St.remOK (s : St) (id : String) (now : Int) : St × Except LErr Bool :=
   match s.kind with | .indexed => St.irem s.fuelOK s id now | .linear => St.lrem s.fuelOK s id now
+/-- `rem`/`search` with an explicit budget (to state that any larger budget gives the same result) -/
+def St.remWith (g : Nat) (s : St) (id : String) (now : Int) : St × Except LErr Bool :=
+  match s.kind with | .indexed => St.irem g s id now | .linear => St.lrem g s id now
+def St.searchWith (g : Nat) (s : St) (p : Obj) (now : Int) : St × Except LErr (List (String × Obj × List Bs)) :=
+  match s.kind with | .indexed => St.isearch g s p now | .linear => St.lsearch g s p now
 def St.searchOK (s : St) (p : Obj) (now : Int) : St × Except LErr (List (String × Obj × List Bs)) :=
   match s.kind with | .indexed => St.isearch s.fuelOK s p now | .linear => St.lsearch s.fuelOK s p now
 
@@ -40,8 +45,10 @@ def TINodup (s : St) : Prop := ∀ e, e ∈ s.ti → e.2.Nodup
 /-- no stored fact id looks like a pattern variable (`GenId` rejects those) -/
 def IdsOK (s : St) : Prop := ∀ e, e ∈ s.facts → isVar e.1 = false
 
+/-- well-formed states: what every state reachable from the empty one by `add`/`rem` satisfies -/
 structure WF (s : St) : Prop where
   keys : KeysNodup s
+  ids : IdsOK s
   tiok : s.kind = .indexed → TIOK s
   tinodup : s.kind = .indexed → TINodup s
 
